@@ -121,6 +121,12 @@ TEMPLATES = {
                'next-sequence-start-number></dtml-if>,</dtml-in>',
     'inbatchsortexpr': '<dtml-in seq sort_expr="sk" size=3 start=1 '
                        'orphan=0><dtml-var k><dtml-var j>,</dtml-in>',
+    # every thread iterates items of another kind (strings, objects,
+    # (key, object) pairs): pushed for one thread, not pushed for the other
+    'inkinds': '<dtml-in kinds><dtml-var sequence-index><dtml-var k '
+               'missing="-">:<dtml-var y>,'
+               '</dtml-in>|<dtml-in kinds size=2 orphan=0><dtml-var '
+               'sequence-index><dtml-var x>,</dtml-in>',
     'tiny': 'a<dtml-var x>b',
     'with': '<dtml-with o><dtml-var x></dtml-with><dtml-with "m" mapping>'
             '<dtml-var x></dtml-with>',
@@ -175,6 +181,8 @@ def namespace(name, i):
           'seq': seqs[i], 'sk': ('k', 'j', 'k')[i], 'rv': i == 1,
           'st': (1, 2, 1)[i], 'o': o, 'm': {'x': 'mx' + tag}, 'boom': boom,
           'lst': [], 'sub': HTML('[<dtml-var x>]'),
+          'kinds': (['s1', 's2', 's3'], [E(1, 2), E(3, 4), E(5, 6)],
+                    [('p', E(7, 8)), ('q', 's')])[i],
           'hd': HTML('<tr><td>head-%s</td></tr>' % tag),
           'ft': HTML('<tr><td>foot-%s</td></tr>' % tag),
           'lf': HTML('leaf-%s' % tag),
